@@ -17,6 +17,10 @@ claim("C17",
       "Theorems windowMult_eq_spec / divisors_documented / earlier_divisor_wins / no_mult_no_match: the model of calculate_window_multiplier returns window/d for the first documented divisor that divides the window, for all inputs; tied to the code by exhaustive window sweeps for fixed tuples, constructed multiples of every divisor position and random tuples.",
       BASE_NOTE + "'timestamp present' is read as own timestamp non-zero (as p0f and the code do).",
       "Lean 4 refinement proof (find-first characterisation) + differential correspondence", "5 C17")
+claim("C02",
+      "Theorems findTcpMatch_eq_spec (for every record list, packet signature and max_dist the loop returns the earliest specific exact match, else the earliest generic exact, else the earliest fuzzy unless user-app), findTcpMatch_mem, direction_only, distance_eq_spec and distance_range (0..255); proved by induction over the record list with generalised accumulators. Tied to find_tcp_match/TCPResult by all orderings of 5-record sets, all 256 TTLs and random databases.",
+      BASE_NOTE + "Function-level op builds Database/TCPRecord/Label objects directly; database text parsing is tied by C09.",
+      "Lean 4 refinement proof by list induction + differential correspondence", "5 C02")
 
 ALL = [f"C{i:02d}" for i in range(1, 19)]
 checks = []
